@@ -1,12 +1,12 @@
 (** C06 — every well-formed game is solved or declared unsolvable (structural part, any number instance). *)
 From Coq Require Import String List Arith Bool QArith.
 From CR Require Import Model.Num Model.Outcome Model.Graph Model.Game
-     Proofs.GraphP Proofs.PruneStatesP Proofs.PipelineP Proofs.ReachQ Proofs.ReachQ2.
+     Proofs.GraphP Proofs.PruneStatesP Proofs.PipelineP Proofs.ReachQ Proofs.ReachQ2 Proofs.RewQ Proofs.RewQ2.
 Import ListNotations.
 
 (* For a well-formed game the model of solve can only: return a complete result (all eight components
    of length n), raise the 'no solution' error (only with pruning on), hit the UnboundLocalError branch
-   of the reward step (not yet excluded by a theorem; never observed in the correspondence runs), or run out of
+   of the reward step (excluded for exact arithmetic by C06_no_crash_Q below), or run out of
    the fuel given to one of the two value-iteration loops. No other ValueError, no KeyError/IndexError,
    and neither the backward search nor prune_states can run out of fuel. *)
 Theorem C06_no_stray_error : forall (T : Type) (K : ops T) fuel (g : game (T:=T)) prune,
@@ -47,7 +47,17 @@ Theorem C06_reach_terminates : forall (g : game (T:=Q)),
   solve_reach_fuel qops fuel g prune <> OutOfFuel.
 Proof. exact reach_terminates. Qed.
 
+(* On exact rationals a well-formed game whose probabilistic transitions all carry positive
+   probabilities never reaches a Crash branch: expected rewards stay non-negative, so Player 1's scan
+   always binds its pick, and renormalisation never divides by zero. Together with C06_no_stray_error:
+   solve returns a complete result, raises 'no solution', or runs out of the fuel of a value-iteration loop. *)
+Theorem C06_no_crash_Q : forall fuel (g : game (T:=Q)) prune,
+  wf_game qops g -> num_wf g ->
+  match solve_fuel qops fuel g prune with Crash _ => False | _ => True end.
+Proof. exact solve_no_crash. Qed.
+
 Print Assumptions C06_no_stray_error.
+Print Assumptions C06_no_crash_Q.
 Print Assumptions C06_reach_terminates.
 Print Assumptions C06_validation_accepts_wf.
 Print Assumptions C06_search_terminates.
